@@ -3,7 +3,7 @@
 # demo fails with it and passes without) and store it under /verif/seeded/<property>-<n>/
 set -u
 WT=$1; N=$2; PROP=$3
-OUT=/verif/seeded/$PROP-$N
+OUT=/verif/seeded/$PROP-${SUFFIX:-}$N
 export CARGO_TARGET_DIR=$WT/target CARGO_NET_OFFLINE=true
 cd $WT || exit 2
 git checkout -q -- . || exit 2
